@@ -8,6 +8,7 @@ same expression on the exact quotient.  Float and exact evaluation agree wheneve
 quotient is not within ~1e-9 of a rounding boundary (k + 1 - 5e-7), which the generators avoid.
 -/
 import Relsad.Model.TimeM
+import Relsad.Model.Interp
 
 namespace Relsad
 
@@ -21,5 +22,11 @@ def incrementsT (period step : Time) : Option Int :=
 /-- The time axis: instants `step, 2·step, …, n·step` (in the reporting unit). -/
 def timeArray (n : Nat) (step : Rat) : List Rat :=
   (List.range n).map (fun (k : Nat) => ((k : Rat) + 1) * step)
+
+/-- `prepare_system`: the time axis of the run and every load / production profile resampled onto it -
+one grid (`increments period step` points) for both. -/
+def prepareSystem (period step unitStep : Rat) (profiles : List (List Rat)) : List Rat × List (List Rat) :=
+  let n := (increments period step).toNat
+  (timeArray n unitStep, profiles.map (fun arr => Interp.interp arr n))
 
 end Relsad
